@@ -5,6 +5,7 @@ package main
 // (S solpacked / S solstring), the constant-fee / pure-pop claim (S jeffect) and the work counter (W).
 
 import (
+	"bytes"
 	"context"
 	"errors"
 	"fmt"
@@ -45,6 +46,7 @@ type jstep struct {
 	reads0   int
 	rdata    string
 	depth    int
+	mem      []byte // memory at a journal instruction
 }
 
 // stepLogger records every executed instruction of interest.
@@ -69,6 +71,9 @@ func (l *stepLogger) CaptureState(pc uint64, op vm.OpCode, gas, cost uint64, sco
 	if l.db != nil {
 		s.reads0 = l.db.reads
 	}
+	if op >= 0xe0 && op <= 0xe7 {
+		s.mem = append([]byte{}, scope.Memory.Data()...)
+	}
 	l.all = append(l.all, s)
 }
 
@@ -83,6 +88,23 @@ type jcase struct {
 type jinstr struct {
 	op   int
 	args []*uint256.Int // in pop order
+	// stage: a length-prefixed record the program writes to memory at stagePtr right before this instruction (how a contract
+	// stages successive mapping keys in one scratch buffer)
+	stage    []byte
+	stagePtr uint64
+}
+
+// emitStage writes the record (32-byte length word, then the bytes in 32-byte words) with MSTOREs.
+func (in jinstr) emitStage(a *Asm) {
+	if in.stage == nil {
+		return
+	}
+	a.PushU(uint64(len(in.stage))).PushU(in.stagePtr).Op(opMSTORE)
+	for i := 0; i < len(in.stage); i += 32 {
+		w := make([]byte, 32)
+		copy(w, in.stage[i:])
+		a.PushBytes(w).PushU(in.stagePtr + 32 + uint64(i)).Op(opMSTORE)
+	}
 }
 
 var contractAddr = common.BytesToAddress([]byte{0xc1})
@@ -95,6 +117,7 @@ func (c *jcase) program() []byte {
 		a.Op(opPUSH1, byte(i))
 	}
 	for _, in := range c.ops {
+		in.emitStage(a)
 		for i := len(in.args) - 1; i >= 0; i-- {
 			a.Push(in.args[i])
 		}
@@ -113,6 +136,7 @@ func (c *jcase) programWithPops() []byte {
 		a.Op(opPUSH1, byte(i))
 	}
 	for _, in := range c.ops {
+		in.emitStage(a)
 		for i := len(in.args) - 1; i >= 0; i-- {
 			a.Push(in.args[i])
 		}
@@ -236,6 +260,7 @@ func runJCase(c *jcase, em *Emitter, tags string, queries func(t *vm.Tracer, q f
 		em.Op("-", fmt.Sprintf("T call %s %s %s %s %s", hexAddr(root.From), hexAddrP(root.To), hexBytes(d), hexNatU(root.Value), hexNatU(root.Gas)), "ok")
 	}
 	em.Op("-", fmt.Sprintf("JE %s %s %s %s", hexAddr(contractAddr), hexBytes(pad32(c.mem)), storageLine(c.storage), kline), "ok")
+	lastMem := pad32(c.mem)
 	// executed journal steps
 	var jsteps []int
 	for i, s := range lg.all {
@@ -259,6 +284,11 @@ func runJCase(c *jcase, em *Emitter, tags string, queries func(t *vm.Tracer, q f
 			res = "err"
 		}
 		class = res
+		if s.mem != nil && !bytes.Equal(s.mem, lastMem) {
+			// the program wrote to memory since the last journal instruction: the instruction's view of memory is part of its input
+			em.Op("-", fmt.Sprintf("JE %s %s %s %s", hexAddr(contractAddr), hexBytes(s.mem), storageLine(c.storage), kline), "ok")
+			lastMem = s.mem
+		}
 		em.Op(tags, fmt.Sprintf("J %s %s", jopNames[in.op], strings.Join(args, ",")), res)
 		em.Count("op:" + jopNames[in.op] + ":" + res + ":" + c.fork[:2])
 		if res == "ok" && si+1 < len(lg.all) {
@@ -514,6 +544,67 @@ func tracerQueriesFor(c *jcase) func(t *vm.Tracer, q func(tags, op, impl string)
 	}
 }
 
+// genStagedProgram: a mapping registered from a name record, then several members whose index keys are staged one after the other
+// in one scratch buffer (or in separate ones), then change journals on some of them; queries list the children in the order returned.
+func genStagedProgram(r *Rng) (*jcase, func(t *vm.Tracer, q func(tags, op, impl string))) {
+	c := &jcase{fork: forkNames[r.Intn(len(forkNames))], storage: map[common.Hash]common.Hash{}}
+	name := stringContent(r, 1+r.Intn(5))
+	rec := make([]byte, 64)
+	rec[31] = byte(len(name))
+	copy(rec[32:], name)
+	c.mem = rec
+	parentSlot, pType, cType := uint256.NewInt(5), uint256.NewInt(1), uint256.NewInt(2)
+	c.ops = append(c.ops, jinstr{op: 0, args: []*uint256.Int{uint256.NewInt(0), parentSlot, pType}})
+	n := 2 + r.Intn(5)
+	sameBuffer := r.Chance(75)
+	var keys [][]byte
+	for i := 0; i < n; i++ {
+		var k []byte
+		switch r.Intn(4) {
+		case 0:
+			k = []byte{byte('a' + i), byte('a' + i), byte('a' + i)}
+		case 1:
+			k = append([]byte("key-"), byte('0'+i))
+		default:
+			k = stringContent(r, 1+r.Intn(40))
+		}
+		dup := false
+		for _, o := range keys {
+			if bytes.Equal(o, k) {
+				dup = true
+			}
+		}
+		if dup {
+			k = append(k, byte(i))
+		}
+		keys = append(keys, k)
+		ptr := uint64(0x40)
+		if !sameBuffer {
+			ptr = 0x40 + uint64(i)*0x60
+		}
+		slot := uint256.NewInt(0xa0 + uint64(i))
+		c.storage[slot.Bytes32()] = wordFrom(r).Bytes32()
+		if r.Bool() {
+			c.ops = append(c.ops, jinstr{op: 2, args: []*uint256.Int{parentSlot, slot, uint256.NewInt(ptr), uint256.NewInt(0), cType, pType}, stage: k, stagePtr: ptr})
+			if r.Chance(50) {
+				c.ops = append(c.ops, jinstr{op: 6, args: []*uint256.Int{slot, uint256.NewInt(0), uint256.NewInt(32), cType}})
+			}
+		} else {
+			c.ops = append(c.ops, jinstr{op: 3, args: []*uint256.Int{parentSlot, slot, uint256.NewInt(ptr), cType, pType}, stage: k, stagePtr: ptr})
+		}
+	}
+	base := tracerQueriesFor(c)
+	return c, func(t *vm.Tracer, q func(tags, op, impl string)) {
+		base(t, q)
+		it := &implTracer{t: t}
+		// the parent with its children in the order `Children()` returns them, and every member by its path
+		q("C03,C10,C11,C16", fmt.Sprintf("node %s %s .", hexAddr(contractAddr), hexBytes(name)), it.qNode(contractAddr, name, nil, false))
+		for _, k := range keys {
+			q("C03,C10,C11,C16", fmt.Sprintf("node %s %s %s", hexAddr(contractAddr), hexBytes(name), hexBytes(k)), it.qNode(contractAddr, name, [][]byte{k}, false))
+		}
+	}
+}
+
 // genJournalProgram: random multi-op program (correspondence).
 func genJournalProgram(r *Rng) *jcase {
 	c := &jcase{fork: forkNames[r.Intn(len(forkNames))], storage: map[common.Hash]common.Hash{}}
@@ -534,6 +625,17 @@ func genJournalProgram(r *Rng) *jcase {
 		} else {
 			c.storage[s.Bytes32()] = wordFrom(r).Bytes32()
 		}
+	}
+	if r.Chance(15) {
+		// a long-string header announcing a length at the top of the 64-bit range: (length+31)/32 wraps around in uint64 above
+		// 2^64-32 (lengths between 2^20 and 2^64-32 are not generated: reading that many slots does not end, known finding D5)
+		ln := new(uint256.Int).SetUint64(^uint64(0) - uint64(r.Intn(31)))
+		if r.Chance(25) {
+			ln = new(uint256.Int).Add(new(uint256.Int).Lsh(uint256.NewInt(1), 64), uint256.NewInt(uint64(r.Intn(40))))
+		}
+		hdr := new(uint256.Int).Lsh(ln, 1)
+		hdr.Add(hdr, uint256.NewInt(1))
+		c.storage[slots[r.Intn(len(slots))].Bytes32()] = hdr.Bytes32()
 	}
 	pick := func(l []*uint256.Int) *uint256.Int { return l[r.Intn(len(l))] }
 	n := 1 + r.Intn(10)
@@ -624,7 +726,7 @@ func genJournalProgram(r *Rng) *jcase {
 			}
 			args = []*uint256.Int{slot, typ}
 		}
-		c.ops = append(c.ops, jinstr{op, args})
+		c.ops = append(c.ops, jinstr{op: op, args: args})
 	}
 	return c
 }
@@ -638,7 +740,7 @@ func specValueCase(r *Rng, em *Emitter, w, off, size *uint256.Int, fork string) 
 	lw := uint256.NewInt(uint64(len(name))).Bytes32()
 	c.mem = append(lw[:], name...)
 	regOff := off
-	c.ops = []jinstr{{1, []*uint256.Int{uint256.NewInt(0), slot, regOff, typ}}, {6, []*uint256.Int{slot, off, size, typ}}}
+	c.ops = []jinstr{{op: 1, args: []*uint256.Int{uint256.NewInt(0), slot, regOff, typ}}, {op: 6, args: []*uint256.Int{slot, off, size, typ}}}
 	recorded := "reject"
 	class := runJCase(c, em, "C03,C09,C12", func(t *vm.Tracer, q func(tags, op, impl string)) {
 		ch, err := t.StateChanges().Slot(contractAddr, slot, off, typ.Bytes32())
@@ -665,7 +767,7 @@ func specStringCase(r *Rng, em *Emitter, slot *uint256.Int, st map[common.Hash]c
 	name := []byte("s")
 	lw := uint256.NewInt(uint64(len(name))).Bytes32()
 	c.mem = append(lw[:], name...)
-	c.ops = []jinstr{{0, []*uint256.Int{uint256.NewInt(0), slot, typ}}, {7, []*uint256.Int{slot, typ}}}
+	c.ops = []jinstr{{op: 0, args: []*uint256.Int{uint256.NewInt(0), slot, typ}}, {op: 7, args: []*uint256.Int{slot, typ}}}
 	recorded := "reject"
 	class := runJCase(c, em, "C03,C09,C12", func(t *vm.Tracer, q func(tags, op, impl string)) {
 		ch, err := t.StateChanges().Slot(contractAddr, slot, nil, typ.Bytes32())
@@ -712,10 +814,10 @@ func specStringSequence(r *Rng, em *Emitter, fork string) {
 		// name i at memory i*64: length word 1, then the byte 's'+i
 		lw := uint256.NewInt(1).Bytes32()
 		c.mem = append(c.mem, pad32(append(lw[:], byte('s'+i)))...)
-		c.ops = append(c.ops, jinstr{0, []*uint256.Int{uint256.NewInt(uint64(64 * i)), slot, typ}})
+		c.ops = append(c.ops, jinstr{op: 0, args: []*uint256.Int{uint256.NewInt(uint64(64 * i)), slot, typ}})
 	}
 	for i := 0; i < k; i++ {
-		c.ops = append(c.ops, jinstr{7, []*uint256.Int{slots[i], typ}})
+		c.ops = append(c.ops, jinstr{op: 7, args: []*uint256.Int{slots[i], typ}})
 	}
 	verdict := "ok"
 	class := runJCase(c, em, "C03,C09", func(t *vm.Tracer, q func(tags, op, impl string)) {
@@ -747,6 +849,11 @@ func driveJournal(seed uint64, n int, size int, em *Emitter, exhaustive bool) {
 	for i := 0; i < n; i++ {
 		em.Reset(fmt.Sprintf("journal-prog-%d-%d", seed, i))
 		c := genJournalProgram(r.Fork())
+		var stagedQ func(t *vm.Tracer, q func(tags, op, impl string))
+		if r.Chance(22) {
+			c, stagedQ = genStagedProgram(r.Fork())
+			em.Count("prog:staged-keys")
+		}
 		if r.Chance(12) && len(c.ops) > 0 {
 			// run the instructions just below the stack limit
 			mx := 0
@@ -758,8 +865,12 @@ func driveJournal(seed uint64, n int, size int, em *Emitter, exhaustive bool) {
 			c.prefill = 1024 - mx - r.Intn(3)
 			em.Count("prog:deep-stack")
 		}
+		queries := tracerQueriesFor(c)
+		if stagedQ != nil {
+			queries = stagedQ
+		}
 		ce0, first := captureEmitter()
-		runJCase(c, ce0, "C03,C09,C10,C12,C16", tracerQueriesFor(c))
+		runJCase(c, ce0, "C03,C09,C10,C12,C16", queries)
 		for _, l := range *first {
 			em.Op(l[0], l[1], l[2])
 		}
@@ -769,7 +880,7 @@ func driveJournal(seed uint64, n int, size int, em *Emitter, exhaustive bool) {
 		verdict := "same"
 		for rep := 0; rep < 2 && verdict == "same"; rep++ {
 			ce, buf := captureEmitter()
-			runJCase(c, ce, "C16", tracerQueriesFor(c))
+			runJCase(c, ce, "C16", queries)
 			for k := range *buf {
 				if k >= len(*first) || (*buf)[k][1] != (*first)[k][1] || (*buf)[k][2] != (*first)[k][2] {
 					verdict = "differs:" + strings.ReplaceAll((*buf)[k][1], " ", "_")
@@ -934,7 +1045,7 @@ func driveJournal(seed uint64, n int, size int, em *Emitter, exhaustive bool) {
 		c := &jcase{fork: "London", storage: map[common.Hash]common.Hash{slot.Bytes32(): uint256.NewInt(2*n + 1).Bytes32()}}
 		lw := uint256.NewInt(1).Bytes32()
 		c.mem = append(lw[:], 's')
-		c.ops = []jinstr{{0, []*uint256.Int{uint256.NewInt(0), slot, typ}}, {7, []*uint256.Int{slot, typ}}}
+		c.ops = []jinstr{{op: 0, args: []*uint256.Int{uint256.NewInt(0), slot, typ}}, {op: 7, args: []*uint256.Int{slot, typ}}}
 		runJCase(c, em, "C20,C03", nil)
 		em.Count(fmt.Sprintf("work-vr:2^%d", e))
 
@@ -942,7 +1053,7 @@ func driveJournal(seed uint64, n int, size int, em *Emitter, exhaustive bool) {
 		c = &jcase{fork: "London", storage: map[common.Hash]common.Hash{}}
 		lw = uint256.NewInt(n).Bytes32()
 		c.mem = append(lw[:], make([]byte, n)...)
-		c.ops = []jinstr{{0, []*uint256.Int{uint256.NewInt(0), slot, typ}}}
+		c.ops = []jinstr{{op: 0, args: []*uint256.Int{uint256.NewInt(0), slot, typ}}}
 		runJCase(c, em, "C20,C03", nil)
 		em.Count(fmt.Sprintf("work-rsv:2^%d", e))
 	}
